@@ -16,7 +16,9 @@ THEOREMS = ["Pypika.C14.join_guard_iff", "Pypika.C14.join_accepts_known", "Pypik
             # concrete builder model (Builder.lean, tied call by call through harness/trace.py)
             "Pypika.B.into_raises_iff", "Pypika.B.delete_raises_iff", "Pypika.B.update_raises_iff", "Pypika.B.select_str_raises_iff", "Pypika.B.mysql_handlers_exclusive", "Pypika.B.mysql_handlers_exclusive_rev", "Pypika.B.pg_handlers_exclusive", "Pypika.B.pg_handlers_exclusive_rev", "Pypika.B.top_raises_iff",
             # CREATE TABLE builder state machine (DDLBuilder.lean, tied call by call through harness/trace.py)
-            "Pypika.DDLB.create_table_once", "Pypika.DDLB.primary_key_once", "Pypika.DDLB.foreign_key_once", "Pypika.DDLB.columns_after_as_select", "Pypika.DDLB.as_select_after_columns", "Pypika.DDLB.vertica_local_needs_temporary", "Pypika.DDLB.vertica_preserve_needs_temporary"]
+            "Pypika.DDLB.create_table_once", "Pypika.DDLB.primary_key_once", "Pypika.DDLB.foreign_key_once", "Pypika.DDLB.columns_after_as_select", "Pypika.DDLB.as_select_after_columns", "Pypika.DDLB.vertica_local_needs_temporary", "Pypika.DDLB.vertica_preserve_needs_temporary",
+            # term-level builders (Builder.lean stepT, tied call by call through harness/trace.py)
+            "Pypika.B.frame_once"]
 AGREE = []
 TRUSTED = ["the scenario table below as the reading of 'documented situation' for each guard"]
 RULE = ("for every guard a family of scenarios generated on BOTH sides of the condition (rejecting inputs and their accepting "
